@@ -21,6 +21,8 @@ import (
 	"os/exec"
 	"strconv"
 	"strings"
+	"sync"
+	"sync/atomic"
 	"time"
 
 	"verifharness/internal/vt"
@@ -78,6 +80,7 @@ func malformedMain(args []string) {
 	fuzz := fl.Int("fuzz", 0, "byte-level mutation cases per format x mode")
 	batch := fl.Int("batch", 400, "jobs per child")
 	memMB := fl.Int("mem", 4096, "address-space limit of a child, MiB")
+	par := fl.Int("par", 4, "child processes running at the same time")
 	fl.Parse(args)
 
 	var jobs []mfJob
@@ -107,29 +110,61 @@ func malformedMain(args []string) {
 	}
 	defer os.RemoveAll(dir)
 
-	next := 0
-	children := 0
-	hangs := 0
-	for next < len(jobs) {
-		end := next + *batch
-		if end > len(jobs) {
-			end = len(jobs)
+	// shards of consecutive jobs, one chain of child processes per shard, a few shards at a time (the jobs
+	// mostly wait: child start-up, grace periods); results are written in job order
+	results := make([]*mfLine, len(jobs))
+	var children, hangs int64
+	var wg sync.WaitGroup
+	sem := make(chan struct{}, *par)
+	shard := (len(jobs) + *par*3 - 1) / (*par * 3)
+	if shard < 1 {
+		shard = 1
+	}
+	for lo, k := 0, 0; lo < len(jobs); lo, k = lo+shard, k+1 {
+		hi := lo + shard
+		if hi > len(jobs) {
+			hi = len(jobs)
 		}
-		jobFile := dir + "/jobs.ndjson"
+		wg.Add(1)
+		go func(lo, hi, k int) {
+			defer wg.Done()
+			sem <- struct{}{}
+			defer func() { <-sem }()
+			mfRunShard(jobs, results, lo, hi, fmt.Sprintf("%s/s%d", dir, k), *repo, *memMB, *batch, &children, &hangs)
+		}(lo, hi, k)
+	}
+	wg.Wait()
+	for i, r := range results {
+		if r == nil {
+			fmt.Fprintf(os.Stderr, "malformed: no result for job %d\n", i)
+			os.Exit(3)
+		}
+		w.Emit(r)
+	}
+	fmt.Fprintf(os.Stderr, "malformed: %d jobs in %d child processes\n", len(jobs), children)
+}
+
+func mfRunShard(jobs []mfJob, results []*mfLine, lo, hi int, prefix, repo string, memMB, batch int, children, hangs *int64) {
+	next := lo
+	for next < hi {
+		end := next + batch
+		if end > hi {
+			end = hi
+		}
+		jobFile := prefix + "-jobs.ndjson"
 		jf := vt.Create(jobFile)
 		for _, j := range jobs[next:end] {
 			jf.Emit(j)
 		}
 		jf.Close()
-		resFile := dir + "/res.ndjson"
+		resFile := prefix + "-res.ndjson"
 		os.Remove(resFile)
-		cmd := exec.Command(os.Args[0], "malformed-child", "-jobs", jobFile, "-out", resFile, "-repo", *repo,
-			"-mem", strconv.Itoa(*memMB), "-hangms", strconv.Itoa(mfHangMillis(hangs)))
+		cmd := exec.Command(os.Args[0], "malformed-child", "-jobs", jobFile, "-out", resFile, "-repo", repo,
+			"-mem", strconv.Itoa(memMB), "-hangms", strconv.Itoa(mfHangMillis(int(atomic.LoadInt64(hangs)))))
 		var stderr bytes.Buffer
 		cmd.Stderr = &stderr
 		cmd.Stdout = os.Stderr
 		cmd.Env = append(os.Environ(), "GOTRACEBACK=single")
-		start := time.Now()
 		done := make(chan error, 1)
 		if err := cmd.Start(); err != nil {
 			panic(err)
@@ -144,10 +179,13 @@ func malformedMain(args []string) {
 			fmt.Fprintln(os.Stderr, "malformed: child exceeded 10 min (machinery)")
 			os.Exit(3)
 		}
-		children++
+		atomic.AddInt64(children, 1)
 		// what the child managed to write
-		completed, began := mfReadResults(resFile, w)
-		_ = start
+		lines, inFlight := mfReadResults(resFile)
+		for i := range lines {
+			results[next+i] = &lines[i]
+		}
+		completed := len(lines)
 		if werr == nil {
 			if completed != end-next {
 				fmt.Fprintf(os.Stderr, "malformed: child exited 0 but wrote %d of %d results\n", completed, end-next)
@@ -162,7 +200,7 @@ func malformedMain(args []string) {
 		}
 		if code == 4 {
 			// the child reported a confirmed hang for its last completed job and left; continue after it
-			hangs++
+			atomic.AddInt64(hangs, 1)
 			next += completed
 			continue
 		}
@@ -170,8 +208,8 @@ func malformedMain(args []string) {
 			fmt.Fprintf(os.Stderr, "malformed: child reports a machinery failure:\n%s\n", tail(stderr.String(), 3000))
 			os.Exit(3)
 		}
-		// the child died while running job `began` (began == completed): that death is the observation
-		if began != completed {
+		// the child died while running job next+completed: that death is the observation
+		if !inFlight {
 			fmt.Fprintf(os.Stderr, "malformed: child died (rc=%d) outside a job:\n%s\n", code, tail(stderr.String(), 3000))
 			os.Exit(3)
 		}
@@ -185,10 +223,9 @@ func malformedMain(args []string) {
 			ln.Res = "crash"
 			ln.Evs = []mfEvent{}
 		}
-		w.Emit(ln)
+		results[next+completed] = &ln
 		next += completed + 1
 	}
-	fmt.Fprintf(os.Stderr, "malformed: %d jobs in %d child processes\n", len(jobs), children)
 }
 
 // Hang rule: 5 s (normal: < 5 ms), confirmed by one re-run.  Once a hang has been confirmed that way the
@@ -228,16 +265,17 @@ func mfCrashClass(stderr string, code int) string {
 	return fmt.Sprintf("killed rc=%d", code)
 }
 
-// copies completed result lines to w; returns (#completed, #begun)
-func mfReadResults(path string, w *vt.Writer) (int, int) {
+// completed result lines of a child, and whether a job was in flight when it stopped writing
+func mfReadResults(path string) ([]mfLine, bool) {
 	f, err := os.Open(path)
 	if err != nil {
-		return 0, 0
+		return nil, false
 	}
 	defer f.Close()
 	sc := bufio.NewScanner(f)
 	sc.Buffer(make([]byte, 1<<20), 1<<26)
-	completed, began := 0, 0
+	var lines []mfLine
+	began := 0
 	for sc.Scan() {
 		b := sc.Bytes()
 		if len(b) == 0 {
@@ -255,13 +293,7 @@ func mfReadResults(path string, w *vt.Writer) (int, int) {
 		if ln.Evs == nil {
 			ln.Evs = []mfEvent{}
 		}
-		w.Emit(ln)
-		completed++
+		lines = append(lines, ln)
 	}
-	if began > completed {
-		began = completed // the job in flight
-	} else {
-		began = -1
-	}
-	return completed, began
+	return lines, began > len(lines)
 }
